@@ -400,6 +400,18 @@ def random_sol(rng, nsites=None, vel=None, tri=None, aimed=None):
                     unit = 'm/y'
                 params.append((t, unit, s.constraint, val, sd))
             s.solns.append(Soln(c, pt, str(q), s.tech, epoch(rng), epoch(rng), epoch(rng), params))
+        if rng.random() < 0.2 and len(pt) == 1:
+            # a second point (another monument) under the same site code, with its own SITE/ID line and the SAME solution numbers
+            pt2 = 'B' if pt == 'A' else 'A'
+            s.sites.append(Site(c, pt2, '%05dM%03d' % (rng.randrange(10000, 99999), rng.randrange(1, 999)), s.tech, desc, lon, lat, h + 1.5))
+            for q in range(1, nsol + 1):
+                params = []
+                for t in typs:
+                    if t.startswith('STA'):
+                        params.append((t, 'm', s.constraint, rng.uniform(-6.4e6, 6.4e6), 10 ** rng.uniform(-5, -1)))
+                    else:
+                        params.append((t, 'm/y', s.constraint, rng.uniform(-0.1, 0.1), 10 ** rng.uniform(-7, -3)))
+                s.solns.append(Soln(c, pt2, str(q), s.tech, epoch(rng), epoch(rng), epoch(rng), params))
     n = s.nparam()
     mode = rng.choice(['dense', 'dense', 'blockdiag', 'diag'])
     scale = 10 ** rng.uniform(-9, -3)
